@@ -140,7 +140,17 @@ class ModuleAdd(AddBase):
                       st.heap.get("_parent_module", v) == m,
                       st.heap.arr("Module._elab_error") == st0.heap.arr("Module._elab_error"),
                       st.heap.arr("Module._elaborated") == st0.heap.arr("Module._elaborated"),
-                      self.others_frame(st0, st, m, v, v))
+                      self.others_frame(st0, st, m, v, prior), self.evicted(st0, st, m, name, v, prior, "_parent_module"))
+
+    @staticmethod
+    def evicted(st0, st, m, name, v, prior, parent):
+        """the prior holder of the name leaves: it no longer reports m as its parent - unless m also holds it under
+        another name, in which case nothing changes for it"""
+        ns0 = st0.heap.get("namespace", m)
+        q = z3.String("qheld")
+        elsewhere = z3.Exists([q], z3.And(q != name, z3.Select(ns0, q) == prior))
+        p0, p1 = st0.heap.get(parent, prior), st.heap.get(parent, prior)
+        return z3.Implies(z3.And(prior != NULL, prior != v), z3.If(elsewhere, p1 == p0, p1 == NULL))
 
     def p_inv(self, eng, st0, st, a, res):
         return inv_ns(st, a.module.z)
@@ -410,8 +420,10 @@ class BundleAdd(AddBase):
     def p_view(self, eng, st0, st, a, res):
         m, v = a.bundle.z, a.val.z
         name = st0.heap.get("name", v)
+        prior = st0.heap.get("namespace", m)[name]
         return z3.And(res.z == v, st.heap.get("namespace", m) == ns_after(st0, m, name, v),
-                      st.heap.get("_parent_bundle", v) == m)
+                      st.heap.get("_parent_bundle", v) == m,
+                      ModuleAdd.evicted(st0, st, m, name, v, prior, "_parent_bundle"))
 
     posts = property(lambda self: [("view", self.p_view),
                                    ("inv_ns", lambda eng, st0, st, a, res:
